@@ -68,10 +68,10 @@ def readFrames (bs : List UInt8) : Option (List Frame) :=
     if t = 0 then (readFrames rest).map (Frame.padding :: ·)
     else if t = 1 then (readFrames rest).map (Frame.ping :: ·)
     else if t = 6 then
-      match h1 : readVarint rest with
+      match _h1 : readVarint rest with
       | none => none
       | some (off, r1) =>
-        match h2 : readVarint r1 with
+        match _h2 : readVarint r1 with
         | none => none
         | some (len, r2) =>
           if len ≤ r2.length then
@@ -83,8 +83,8 @@ decreasing_by
   all_goals simp_wf
   all_goals first
     | omega
-    | (have := readVarint_length h1
-       have := readVarint_length h2
+    | (have := readVarint_length _h1
+       have := readVarint_length _h2
        omega)
 
 /-- all payloads of a flight, concatenated frame lists -/
